@@ -1,6 +1,7 @@
 // Package c05: executing the same block on the same committed state yields identical results on every replica:
-// proposer path vs validator path, trie mode vs kv mode, warm vs cold mempool cache, block objects vs blocks decoded
-// from their wire bytes, any GOMAXPROCS, and on every repetition (Go randomises map iteration per range statement).
+// proposer path vs validator path vs fast-sync commit, trie mode vs kv mode, warm vs cold mempool cache, warm vs cold WASM
+// application cache, restarts, replicas that validated another proposal of the same height first, block objects vs blocks
+// decoded from their wire bytes, any GOMAXPROCS, and on every repetition (Go randomises map iteration per range statement).
 package c05
 
 import (
@@ -22,11 +23,47 @@ import (
 type P struct{}
 
 func (P) Rule() string {
-	return "each case is a chain of blocks (plain and token transfers, calls of an EVM contract that writes several storage slots and logs, reverting calls, " +
-		"account->confidential, confidential->confidential, confidential->account) proposed by replica A (trie mode, warm mempool cache, PreRunBlock) and validated + committed by " +
-		"replica B (kv mode, cold cache, block decoded from its wire bytes) and replica C (trie mode, cold cache, decoded block) under a random GOMAXPROCS; after every block the " +
-		"digests of (StateHash, ReceiptHash, GasUsed, bloom, receipts incl. logs, candidates, confidential outputs, output sequence) of all replicas are compared, and the whole chain is re-executed " +
-		"from genesis on fresh replicas and must reproduce every digest; non-trivial = some block carries >= 3 transactions of >= 2 kinds incl. a contract call or a confidential tx; distinct = distinct op sequence"
+	return "each case is a chain of blocks proposed by replica A (trie mode, warm mempool cache, PreRunBlock) and validated + committed by independent replicas. " +
+		"Family `replicas` (genesis without system contracts): plain and token transfers, EVM contract calls (storage, logs, reverts), EVM creations of seven kinds, calls of a value-moving EVM " +
+		"contract (forward, self-destruct, token transfer, revert, invalid opcode), token calls, account->confidential, confidential->confidential, confidential->account; replicas B (kv, cold cache, " +
+		"decoded block) and C (trie, cold). Family `sys` (the REAL genesis: eight WASM system contracts deployed and initialised as cmd/commands/init.go does, candidates registered through the " +
+		"pledge/candidates contracts, the node's setPoceeds/allocAward handles): >= 20 blocks with WASM creations and calls (logs, notifications, hashing, value and token transfers, contract-to-contract " +
+		"calls, self-destruct, failing calls, truncated modules, out-of-gas), calls of the system contracts, multi-signature and contract-upgrade transactions, duplicate-vote and fault-validator evidence, " +
+		"coinbases that are candidates (awards), elections every vote period; replicas: kv/cold, trie/cold, trie/fast-sync commit with a restart every third block, kv with a warm twin mempool cache that " +
+		"validated another proposal of the same height first (decoy), a second proposer (kv) that pre-runs the same transactions; every replica owns its WASM application cache. After every block the " +
+		"digests of (StateHash, ReceiptHash, GasUsed, bloom, receipts incl. logs, candidates, special transactions, key images, confidential outputs, next validators, candidate scores in the state, " +
+		"foundation and coinbase balances) of all replicas are compared, the total supply is compared with the genesis supply, and the whole chain is re-executed from genesis on fresh replicas and must " +
+		"reproduce every digest; `elect` ops carry the inputs and the result of every election for the Lean model of the election. non-trivial = some block carries >= 3 transactions of >= 2 kinds incl. " +
+		"a contract call, a WASM transaction, a special transaction, evidence or a confidential tx; distinct = distinct op sequence"
+}
+
+// DecoyExposure gates the replica that validates ANOTHER proposal of the same height before the block that is committed when that
+// proposal carries a contract upgrade (finding proposed/C05-wasm-appcache-outside-state.md: the tc-wasm application cache is a
+// process global keyed by address and survives a proposal that is never committed).  Off = the unchanged tree stays green.
+const DecoyExposure = true
+
+type profile struct {
+	name      string
+	trie      bool
+	fastsync  bool // CommitBlock(fastsync=true)
+	restart   int  // restart (re-open on the same databases, cold caches) before every restart-th block; 0 = never
+	decoy     bool // validates the decoy proposal (if the block op has one) before the real block
+	warm      bool // mempool cache holds hash-identical twins of the block's transactions (decoded separately)
+	proposer2 bool // pre-runs the same transactions itself (PreRunBlock) and must fill the same header
+}
+
+var sysProfiles = []profile{
+	{name: "kv-cold", trie: false},
+	{name: "trie-cold", trie: true},
+	{name: "trie-fastsync-restart", trie: true, fastsync: true, restart: 3},
+	{name: "kv-warm-decoy", trie: false, decoy: true, warm: true},
+	{name: "kv-proposer2", trie: false, proposer2: true},
+}
+
+type replica struct {
+	s    *appsim.Stack
+	prof profile
+	n    int // blocks seen
 }
 
 type exec struct {
@@ -34,10 +71,26 @@ type exec struct {
 	digests []string // per committed height, of replica A
 	history []string // ops executed so far in this case (for rerun)
 	inRerun bool
+	// sys chains
+	sys       bool
+	so        appsim.SysOpts
+	reps      []*replica
+	nonce     map[int]uint64
+	mnonce    uint64
+	supply0   string
+	pending   *pendingBlock
+	elects    map[uint64]string // height -> election line (inputs and result) of the main stack
+	noSupply  bool
+	sysCalled map[string]bool // inner contracts called by a pending transaction
+}
+
+// pendingBlock: what the current sblock op asks for beyond the mempool's transactions
+type pendingBlock struct {
+	decoy *types.Block
 }
 
 func (P) NewExec() hx.Executor {
-	e := &exec{}
+	e := &exec{nonce: map[int]uint64{}, elects: map[uint64]string{}, sysCalled: map[string]bool{}}
 	e.c.ReplicaOpts = []appsim.Opts{{IsTrie: false}, {IsTrie: true}}
 	e.c.AfterCommit = e.afterCommit
 	return e
@@ -60,9 +113,9 @@ func digestOf(s *appsim.Stack, h uint64, tok common.Address, withRoot bool) stri
 	}
 	if rs := s.BS.GetReceipts(h); rs != nil {
 		for _, rc := range *rs {
-			fmt.Fprintf(hh, "R%d|%d|%s|%x|%x|%d|", rc.Status, rc.GasUsed, rc.VMErr, rc.TxHash, rc.ContractAddress, len(rc.Logs))
+			fmt.Fprintf(hh, "R%d|%d|%s|%x|%x|%d|%x|", rc.Status, rc.GasUsed, rc.VMErr, rc.TxHash, rc.ContractAddress, len(rc.Logs), rc.Bloom)
 			for _, l := range rc.Logs {
-				fmt.Fprintf(hh, "L%x|%x|%x|", l.Address, l.Topics, l.Data)
+				fmt.Fprintf(hh, "L%x|%x|%x|%d|%d|", l.Address, l.Topics, l.Data, l.TxIndex, l.Index)
 			}
 		}
 	}
@@ -79,6 +132,9 @@ func digestOf(s *appsim.Stack, h uint64, tok common.Address, withRoot bool) stri
 }
 
 func (e *exec) afterCommit(b *types.Block) string {
+	if e.sys {
+		return e.afterCommitSys(b)
+	}
 	bz, err := ser.EncodeToBytes(b)
 	if err != nil {
 		return "agree=false why=encode"
@@ -120,11 +176,32 @@ func (e *exec) afterCommit(b *types.Block) string {
 	return "agree=true"
 }
 
+// fill replaces nonce=? by the next nonce of the `from` account (advanced when the transaction is admitted) and mnonce=? by the
+// next nonce of the multi-signature address.
+func (e *exec) fill(op string) (string, int, bool) {
+	toks := hx.Tokens(op)
+	from := int(hx.ArgI(toks, "from", 0))
+	usesM := false
+	for i, t := range toks {
+		if t == "nonce=?" {
+			if toks[0] == "msigx" {
+				toks[i] = fmt.Sprintf("nonce=%d", e.mnonce)
+				usesM = true
+			} else {
+				toks[i] = fmt.Sprintf("nonce=%d", e.nonce[from])
+			}
+		}
+	}
+	return strings.Join(toks, " "), from, usesM
+}
+
 func (e *exec) Exec(op string) string {
 	toks := hx.Tokens(op)
 	switch toks[0] {
 	case "case":
+		e.closeReps()
 		e.digests, e.history = nil, nil
+		e.sys, e.reps, e.nonce, e.mnonce, e.supply0, e.pending, e.elects, e.noSupply, e.sysCalled = false, nil, map[int]uint64{}, 0, "", nil, map[uint64]string{}, false, map[string]bool{}
 		return e.c.Exec(op)
 	case "procs":
 		var n int
@@ -145,10 +222,54 @@ func (e *exec) Exec(op string) string {
 			}
 		}
 		hx.SafeExec(f, "case")
+		if e.sys {
+			e.c.S.UseCache()
+		}
 		return fmt.Sprintf("same=%v blocks=%d", same, len(e.digests))
+	case "elect": // annotated by the generator's dry run: must be what the chain produced at that height
+		h := uint64(hx.ArgI(toks, "h", 0))
+		want := strings.TrimSpace(strings.TrimPrefix(op, "elect"))
+		if got := e.elects[h]; got != want {
+			return "stale got:" + got
+		}
+		return "ok"
 	}
 	e.history = append(e.history, op)
-	ans := e.c.Exec(op)
+	if toks[0] == "chain" && hx.ArgI(toks, "sys", 0) == 1 {
+		return e.sysChain(op, toks)
+	}
+	if e.sys {
+		switch toks[0] {
+		case "sblock":
+			return e.sblock(toks)
+		case "srestart":
+			return e.srestart(int(hx.ArgI(toks, "r", -1)))
+		}
+		e.c.S.UseCache()
+	}
+	if e.sys {
+		// gated (DecoyExposure): an upgrade of an inner contract BEHIND a call of that contract in the same block — the node that
+		// executes such a block twice (its proposer: PreRunBlock, then CheckBlock) runs the call with the new code the second time
+		switch toks[0] {
+		case "wcall":
+			if to, _ := hx.Arg(toks, "to"); strings.HasPrefix(to, "s:") {
+				e.sysCalled[to[2:]] = true
+			}
+		case "upg":
+			if t, _ := hx.Arg(toks, "target"); e.sysCalled[t] && !exposure() {
+				return "ok"
+			}
+		}
+	}
+	fop, from, usesM := e.fill(op)
+	ans := e.c.Exec(fop)
+	if strings.Contains(ans, "admit=ok") {
+		if usesM {
+			e.mnonce++
+		} else if toks[0] != "uu" && toks[0] != "ua" && toks[0] != "replay" {
+			e.nonce[from]++
+		}
+	}
 	switch toks[0] {
 	case "block":
 		// the transaction list is the ledger model's subject (C06/C07/C15); here only height and agreement
@@ -173,10 +294,23 @@ func (P) Monitor(c *hx.CaseRun) []hx.Failure {
 		if strings.Contains(ans, "agree=false") {
 			why, _ := hx.Arg(hx.Tokens(ans), "why")
 			cls := "replicas-disagree"
-			if strings.Contains(why, "rejects-proposed-block") {
+			switch {
+			case strings.Contains(why, "decoy") || strings.Contains(op, "decoy="):
+				cls = "uncommitted-proposal-changes-execution"
+			case strings.Contains(why, "rejects-proposed-block"):
 				cls = "proposed-block-rejected"
+			case strings.Contains(why, "supply"):
+				cls = "supply-changed"
+			case strings.Contains(why, "validators"):
+				cls = "next-validators-differ"
+			case strings.Contains(why, "election"):
+				cls = "election-not-canonical"
 			}
 			fs = append(fs, hx.Failure{Monitor: "replicas_agree", Class: cls, Site: "app/app.go:processBlock", Msg: op + " -> " + ans})
+		}
+		if (strings.HasPrefix(op, "sblock") || strings.HasPrefix(op, "block")) && (strings.HasPrefix(ans, "validate=") || strings.HasPrefix(ans, "commit=") || strings.HasPrefix(ans, "propose=")) {
+			// the node that built the block (PreRunBlock) does not accept it itself (CheckBlock / CommitBlock)
+			fs = append(fs, hx.Failure{Monitor: "replicas_agree", Class: "proposer-rejects-own-block", Site: "app/app.go:CheckBlock", Msg: op + " -> " + ans})
 		}
 		if strings.HasPrefix(op, "rerun") && !strings.Contains(ans, "same=true") {
 			fs = append(fs, hx.Failure{Monitor: "rerun_reproduces", Class: "rerun-differs", Site: "app/app.go:processBlock", Msg: ans})
@@ -184,45 +318,62 @@ func (P) Monitor(c *hx.CaseRun) []hx.Failure {
 		if strings.HasPrefix(ans, "panic") || strings.Contains(ans, "=panic") {
 			fs = append(fs, hx.Failure{Monitor: "no_panic", Class: "panic:" + ans, Site: "app", Msg: op})
 		}
+		if strings.HasPrefix(op, "elect") && ans != "ok" {
+			fs = append(fs, hx.Failure{Monitor: "rerun_reproduces", Class: "election-differs-from-dry-run", Site: "app/app.go:calculateCandidates", Msg: ans})
+		}
+		if strings.HasPrefix(op, "chain") && strings.HasPrefix(ans, "err") {
+			fs = append(fs, hx.Failure{Monitor: "genesis", Class: "genesis-failed", Site: "cmd/commands/init.go:deployOriginalContract", Msg: ans})
+		}
 	}
 	return fs
 }
 
 func (P) Generate(g *hx.Gen) {
-	n := g.Pick(80, 600)
+	genClassic(g)
+	genSys(g)
+}
+
+func genClassic(g *hx.Gen) {
+	n := g.Pick(50, 500)
 	for k := 0; k < n; k++ {
-		ops := []string{hx.CaseOp(), fmt.Sprintf("procs n=%d", []int{1, 2, 4, 16}[g.Rng.Intn(4)]), fmt.Sprintf("chain trie=1 accts=4 wallets=2 seed=%d code=1", 1+g.Rng.Intn(1000))}
-		nonce := []int{0, 0, 0, 0}
+		ext := k%2 == 1 // the extended contract set: creations, the value-moving contract, token calls
+		code := 1
+		if ext {
+			code = 2
+		}
+		ops := []string{hx.CaseOp(), fmt.Sprintf("procs n=%d", []int{1, 2, 4, 16}[g.Rng.Intn(4)]), fmt.Sprintf("chain trie=1 accts=4 wallets=2 seed=%d code=%d", 1+g.Rng.Intn(1000), code)}
 		owned := []int{0, 0}
 		blocks := 3 + g.Rng.Intn(g.Pick(3, 6))
 		rich := false
+		created := 0
 		for b := 0; b < blocks; b++ {
 			ntx := 1 + g.Rng.Intn(7)
 			kinds := map[string]bool{}
 			pend := []int{0, 0}
+			newCreated := 0
 			for t := 0; t < ntx; t++ {
 				from := g.Rng.Intn(4)
-				switch r := g.Rng.Intn(12); {
+				r := g.Rng.Intn(12)
+				if ext && g.Rng.Intn(3) == 0 {
+					r = 12 + g.Rng.Intn(4)
+				}
+				switch {
 				case r < 3:
-					ops = append(ops, fmt.Sprintf("xfer from=%d to=%d amount=%d nonce=%d", from, g.Rng.Intn(4), 1+g.Rng.Intn(100000), nonce[from]))
-					nonce[from]++
+					ops = append(ops, fmt.Sprintf("xfer from=%d to=%d amount=%d nonce=?", from, g.Rng.Intn(4), 1+g.Rng.Intn(100000)))
 					kinds["xfer"] = true
 				case r == 3:
-					ops = append(ops, fmt.Sprintf("xfertok from=%d to=%d amount=%d nonce=%d", from, g.Rng.Intn(4), 1+g.Rng.Intn(1000), nonce[from]))
-					nonce[from]++
+					ops = append(ops, fmt.Sprintf("xfertok from=%d to=%d amount=%d nonce=?", from, g.Rng.Intn(4), 1+g.Rng.Intn(1000)))
 					kinds["tok"] = true
 				case r < 7:
 					c := g.Rng.Intn(40)
 					if g.Rng.Intn(5) == 0 {
 						c = 255 // reverting call
 					}
-					ops = append(ops, fmt.Sprintf("call from=%d c=%d nonce=%d", from, c, nonce[from]))
-					nonce[from]++
+					ops = append(ops, fmt.Sprintf("call from=%d c=%d nonce=?", from, c))
 					kinds["call"] = true
 				case r < 9:
 					w := g.Rng.Intn(2)
-					ops = append(ops, fmt.Sprintf("ain from=%d w=%d amount=%d nonce=%d", from, w, 20000000000+g.Rng.Intn(1000000)*10000, nonce[from]))
-					nonce[from]++
+					ops = append(ops, fmt.Sprintf("ain from=%d w=%d amount=%d nonce=?", from, w, 20000000000+g.Rng.Intn(1000000)*10000))
 					pend[w]++
 					kinds["conf"] = true
 				case r == 9:
@@ -233,26 +384,50 @@ func (P) Generate(g *hx.Gen) {
 						pend[1]++
 						kinds["conf"] = true
 					}
-				default:
+				case r < 12:
 					w := g.Rng.Intn(2)
 					if owned[w] > 0 {
 						ops = append(ops, fmt.Sprintf("ua w=%d in=%d to=%d amount=%d", w, g.Rng.Intn(owned[w]), g.Rng.Intn(4), 1+g.Rng.Intn(5000000000)))
 						kinds["conf"] = true
 					}
+				case r == 12: // EVM creation of a kind, with or without an endowment
+					kind := []string{"ok", "empty", "revert", "invalid", "big", "max", "json"}[g.Rng.Intn(7)]
+					gas := []int{1000000, 1000000, 60000, 9000000}[g.Rng.Intn(4)]
+					ops = append(ops, fmt.Sprintf("create from=%d kind=%s value=%d gas=%d nonce=?", from, kind, g.Rng.Intn(3)*g.Rng.Intn(1000), gas))
+					newCreated++
+					kinds["create"] = true
+				case r == 13 || r == 14: // the value-moving contract (or a created copy of it)
+					to := []string{"a0", "a1", "b0", "b1", "m", "t"}[g.Rng.Intn(6)]
+					if created > 0 && g.Rng.Intn(4) == 0 {
+						to = fmt.Sprintf("c%d", g.Rng.Intn(created))
+					}
+					op := fmt.Sprintf("mcall from=%d m=%d to=%s value=%d gas=%d nonce=?", from, g.Rng.Intn(9), to, g.Rng.Intn(2)*(1+g.Rng.Intn(5000)), []int{1000000, 1000000, 40000}[g.Rng.Intn(3)])
+					if g.Rng.Intn(4) == 0 {
+						op += " tok=1"
+					}
+					if created > 0 && g.Rng.Intn(5) == 0 {
+						op += fmt.Sprintf(" at=%d", g.Rng.Intn(created))
+					}
+					ops = append(ops, op)
+					kinds["call"] = true
+				default:
+					ops = append(ops, fmt.Sprintf("calltok from=%d c=%d value=%d nonce=?", from, g.Rng.Intn(40), g.Rng.Intn(100)))
+					kinds["call"] = true
 				}
 			}
-			if ntx >= 3 && len(kinds) >= 2 && (kinds["call"] || kinds["conf"]) {
+			if ntx >= 3 && len(kinds) >= 2 && (kinds["call"] || kinds["conf"] || kinds["create"]) {
 				rich = true
 			}
 			ops = append(ops, "block")
 			owned[0] += pend[0]
 			owned[1] += pend[1]
+			created += newCreated
 		}
 		ops = append(ops, "rerun")
 		if g.Rng.Intn(3) == 0 {
 			ops = append(ops, "rerun")
 		}
-		g.Case(fmt.Sprintf("replicas blocks=%d", blocks), ops, rich)
+		g.Case(fmt.Sprintf("replicas blocks=%d ext=%v", blocks, ext), ops, rich)
 	}
 }
 
